@@ -774,3 +774,14 @@ CONTRACTS += [
                       "cells": "all(implies(1 <= s and s < max_hyperedge_size and 1 <= t and t < max_hyperedge_size, "
                                "signature._m[pair(s - 1, t - 1)] == real(cnt_shape(hypergraph, _done0, s, t))) for s in Int for t in Int)"}}),
 ]
+
+
+# ---- hypergraph-level metadata (a dict of the object): the setter installs the given dict, the attribute setter changes one entry, nothing else
+# about the object changes (frame); the getter returns it
+CONTRACTS += [
+    C("get_hypergraph_metadata", params={}, result="Meta", pure=True, ensures={"result": "result == HM(self)"}, properties=['C02', 'C07']),
+    C("set_hypergraph_metadata", params={"metadata": "Meta"}, modifies=["_hypergraph_metadata"],
+      ensures={"HM": "HM(self) == metadata"}, properties=['C02', 'C07']),
+    C("set_attr_to_hypergraph_metadata", params={"field": "Field", "value": "Val"}, modifies=["_hypergraph_metadata"],
+      ensures={"HM": "HM(self) == mset(HM(old(self)), field, value)"}, properties=['C02', 'C07']),
+]
